@@ -287,6 +287,9 @@ impl<'a, B, OC, SC, L> StorageResolver<'a, B, OC, SC, L> {
     }
 }
 
+/// loads one thread may have in progress at a time (a page tree sixteen levels deep needs about twenty)
+const MAX_NESTED_LOADS: usize = 64;
+
 struct Defer<F: FnMut()>(F);
 impl<F: FnMut()> Drop for Defer<F> {
     fn drop(&mut self) {
@@ -332,6 +335,11 @@ where
                 #[cfg(pdf_rs_pdf_verif)]
                 crate::verif::hook("recursive", key.id);
                 bail!("Recursive reference");
+            }
+            // every nested load is a few stack frames: a chain of objects that load each other eagerly
+            // (hundreds of /Parent links) must end in an error before the stack does
+            if chain.iter().filter(|e| e.0 == entry.0).count() >= MAX_NESTED_LOADS {
+                bail!("more than {} nested loads", MAX_NESTED_LOADS);
             }
             chain.push(entry);
             #[cfg(pdf_rs_pdf_verif)]
@@ -393,6 +401,9 @@ where
                 #[cfg(pdf_rs_pdf_verif)]
                 crate::verif::hook("lrecursive", r.id);
                 bail!("Recursive reference");
+            }
+            if chain.iter().filter(|e| e.0 == entry.0).count() >= MAX_NESTED_LOADS {
+                bail!("more than {} nested loads", MAX_NESTED_LOADS);
             }
             chain.push(entry);
             #[cfg(pdf_rs_pdf_verif)]
